@@ -1146,6 +1146,12 @@ M('C10', 'add_local_term: h.c. term converted with the index reduced modulo N (r
 M('C11', 'expectation_value_power stops after the MPO unit cell (round-4 seed b)', MPO,
   "            if i >= L - 1:\n                RP = env.init_RP(i)", "            if i >= self.L - 1:\n                RP = env.init_RP(i)", 'RANGE-period-mixed')
 
+M('C14', 'Suzuki constant t1 lost its parentheses (round-4 seed a)', TEBD,
+  "t1 = 1.0 / (4.0 - 4.0 ** (1 / 3.0))", "t1 = 1.0 / (4.0 - 4.0 ** 1 / 3.0)", 'TROTTER-order')
+M('C14', 'Suzuki constant written with a named cube root (equivalent)', TEBD,
+  "            t1 = 1.0 / (4.0 - 4.0 ** (1 / 3.0))\n", "            cbrt4 = 4.0 ** (1.0 / 3.0)\n            t1 = 1.0 / (4.0 - cbrt4)\n",
+  None, expect='silent')
+
 # ---------------------------------------------------------------- C16 / C19
 M('C16', 'GMRES restart: relative residual norm used for normalisation (round-3 seed b)', KRY,
   """        self.total_error.append([npc.norm(self.rs[-1]) / self.b_norm])
